@@ -40,7 +40,59 @@ def is_c(e, suffix):
     return e[0] == 'call' and isinstance(e[1], str) and e[1].endswith(suffix)
 
 
+_POSFORM = {'ok': False}
+
+
+def _position_form(ctx, R, lib, g, p, T):
+    """transition(position(|t| t.out > value).unwrap_or(len) - 1): the index of the first transition that does NOT fit, minus one, is
+    the last of the leading transitions that fit - the take_while(..).last() selection spelled with an index.  The predicate is
+    checked here (a recognised shape with the wrong comparison is a violation of step-choice)."""
+    if len(T[2]) < 2:
+        return []
+    idx = T[2][1]
+    if not (idx[0] == 'bin' and idx[1] == 'Sub' and idx[3] == ('const', 1)):
+        return []
+    F = idx[2]
+    pos = [x for x in walk(F) if is_c(x, 'Iterator::position') and len(x[2]) == 2 and x[2][1][0] == 'closure']
+    if len(pos) != 1 or not is_c(F, 'unwrap_or') or not any(is_c(x, "Node::<'f>::len") or is_c(x, '::len') for x in walk(F[2][1])):
+        return []
+    if any(is_c(x, 'Iterator::rev') or is_c(x, 'Iterator::skip') for x in walk(pos[0][2][0])):
+        return []
+    cl = lib.fns.get(pos[0][2][1][1])
+    if cl is None:
+        return []
+    verdict = None
+    for q in explore(cl, max_visits=1):
+        if q.end != 'return':
+            continue
+        rv = q.ret()
+        while rv[0] == 'cast':
+            rv = rv[1]
+        if rv[0] == 'bin' and rv[1] in ('Le', 'Lt', 'Ge', 'Gt', 'Eq', 'Ne'):
+            l_out = any(x[0] == 'field' and x[2] == 'out' for x in walk(rv[2]))
+            r_out = any(x[0] == 'field' and x[2] == 'out' for x in walk(rv[3]))
+            l_cap = any(x[0] == 'param' and x[2] == 1 for x in walk(rv[2]))
+            r_cap = any(x[0] == 'param' and x[2] == 1 for x in walk(rv[3]))
+            if l_out and r_cap and not (r_out or l_cap):
+                verdict = 'ok' if rv[1] == 'Gt' else 'output %s remaining value' % rv[1]
+            elif r_out and l_cap and not (l_out or r_cap):
+                verdict = 'ok' if rv[1] == 'Lt' else 'remaining value %s output' % rv[1]
+    if verdict is None:
+        return []
+    if verdict != 'ok':
+        ctx.violation(R, 'step-choice', 'the step follows the transition before the first one with "%s"; it must be the one before the first whose output EXCEEDS the remaining value (output > value)' % verdict, fn=cl)
+        return [True]
+    from rules.streams import norm as _n
+    nz = [d for d in p.decisions if d[2][0] == 'bin' and d[2][1] in ('Eq', 'Ne', 'Gt', 'Ge', 'Lt', 'Le') and any(_n(x) == _n(F) for x in (d[2][2], d[2][3])) and
+          any(c_ in (('const', 0), ('const', 1)) for c_ in (d[2][2], d[2][3]))]
+    if nz:
+        ctx.check(R, True, 'step-choice', '', fn=g)
+        _POSFORM['ok'] = True
+    return nz
+
+
 def r16_1(ctx):
+    _POSFORM['ok'] = False
     R = ctx.rule('R16.1', 'every output-accumulating descent that tests finality also reads the final output', floor=3)
     lib = ctx.lib
     if lib.fn(IS_FINAL.replace("<'f>", "<'f>")) is None:
@@ -134,6 +186,8 @@ def r16_1(ctx):
                 if direct:
                     from rules.streams import norm as _n
                     fits = [d for d in p.decisions if d[2][0] == 'bin' and d[2][1] in ('Le', 'Lt', 'Ge', 'Gt') and any(_n(x) == _n(T) for x in walk(d[2]) if x[0] == 'call')]
+                    if not fits:
+                        fits = _position_form(ctx, R, lib, g, p, T)
                     ctx.check(R, bool(fits), 'step-fits', 'a descent step subtracts the output of a transition picked by index without this path having established that its output is <= the remaining value: for a value below every output of the node the subtraction underflows', fn=g)
             ctx.check(R, ok_upd, 'step-consumes-output', 'a descent step does not subtract the output of the transition it follows from the remaining value: %s' % fmt(upd)[:100], fn=g)
     if n_true == 0:
@@ -149,6 +203,9 @@ def r16_1(ctx):
             ctx.check(R, True, 'failure-condition', '', fn=g)
         elif why and why[-1][3] == 0:
             ctx.check(R, True, 'failure-condition', '', fn=g)
+        elif _POSFORM['ok'] and p.decisions and p.decisions[-1][2][0] == 'bin' and p.decisions[-1][2][1] in ('Eq', 'Ne') and ('const', 0) in p.decisions[-1][2][2:] and \
+                p.decisions[-1][3] == (1 if p.decisions[-1][2][1] == 'Eq' else 0) and any(is_c(x, 'Iterator::position') for x in walk(p.decisions[-1][2])):
+            ctx.check(R, True, 'failure-condition', '', fn=g)      # "no leading transition fits" in the index form
         else:
             last = p.decisions[-1][2] if p.decisions else ('?',)
             if any(x[0] == 'field' and x[2] == 'out' for x in walk(last)) or any(is_c(x, 'Output::value') for x in walk(last)) or any(is_c(x, 'map_or') or is_c(x, 'is_some_and') for x in walk(last)):
@@ -187,7 +244,9 @@ def r16_1(ctx):
                 sel = (args[1][1], t)
         if sel:
             break
-    if sel is None or sel[0] not in lib.fns:
+    if sel is None and _POSFORM['ok']:
+        pass            # decided with the step itself (index form)
+    elif sel is None or sel[0] not in lib.fns:
         ctx.undecided(R, 'step-choice', 'the transition to follow is not selected by take_while(..).last(): form not decided', fn=g)
     else:
         cl = lib.fns[sel[0]]
@@ -206,6 +265,12 @@ def r16_1(ctx):
             rv = p.ret()
             while rv[0] == 'cast':
                 rv = rv[1]
+            if rv == ('const', 1) and not any(any(x[0] == 'field' and x[2] == 'out' for x in walk(d[2])) for d in p.decisions):
+                # `other_test || out <= value`: a transition is let through without its output having been compared
+                ctx.violation(R, 'step-choice', 'the selecting predicate accepts a transition on a path that never compares its output with the remaining value (%s): the step then subtracts an output that may exceed the value' % (
+                    fmt(p.decisions[-1][2])[:80] if p.decisions else 'unconditionally'), fn=cl)
+                verdict = 'reported'
+                break
             if rv[0] == 'bin' and rv[1] in ('Le', 'Lt', 'Ge', 'Gt', 'Eq', 'Ne'):
                 l_out = any(x[0] == 'field' and x[2] == 'out' for x in walk(rv[2]))
                 r_out = any(x[0] == 'field' and x[2] == 'out' for x in walk(rv[3]))
@@ -215,13 +280,71 @@ def r16_1(ctx):
                     verdict = 'ok' if rv[1] == 'Le' else 'output %s remaining value' % rv[1]
                 elif r_out and l_cap and not (l_out or r_cap):
                     verdict = 'ok' if rv[1] == 'Ge' else 'remaining value %s output' % rv[1]
-        if verdict is None:
+        if verdict == 'reported':
+            pass
+        elif verdict is None:
             ctx.undecided(R, 'step-choice', 'the selecting predicate is not a comparison of a transition output with the remaining value', fn=cl)
         elif verdict == 'ok':
             ctx.check(R, pickers == {'last'} or not pickers, 'step-choice', '', fn=g)
         else:
             ctx.violation(R, 'step-choice', 'a step must follow the last transition whose output is <= the remaining value; the predicate is "%s": a transition whose output equals the remaining value (every key whose last outputs are zero) is handled wrongly' % verdict, fn=cl)
     return g
+
+
+def _rightmost_bound(lib, gk, gki, p):
+    """judge `if value > <value of the last key> { return None }`.  The value of the last key is the sum along the right-most
+    transitions down to the node WITHOUT transitions (a final node on the way is a shorter, smaller key) plus that node's final
+    output.  'ok' / None (cannot judge) / text of what is wrong"""
+    if not p.decisions:
+        return None
+    e, val = p.decisions[-1][2], p.decisions[-1][3]
+    if not (e[0] == 'bin' and e[1] in ('Gt', 'Lt', 'Ge', 'Le')):
+        return None
+    lhs_value = e[2] == ('param', gk.local_name(2), 2)
+    rhs_value = e[3] == ('param', gk.local_name(2), 2)
+    if lhs_value == rhs_value:
+        return None
+    # normalise to  value OP bound  taken as true
+    op = e[1] if lhs_value else {'Gt': 'Lt', 'Lt': 'Gt', 'Ge': 'Le', 'Le': 'Ge'}[e[1]]
+    if val == 0:
+        op = {'Gt': 'Le', 'Le': 'Gt', 'Lt': 'Ge', 'Ge': 'Lt'}[op]
+    # the walk that computes the bound
+    cands, seen = [], set()
+    todo = [gk.path]
+    while todo:
+        q = todo.pop()
+        if q in seen or q == gki.path or q not in lib.fns:
+            continue
+        seen.add(q)
+        h = lib.fns[q]
+        if h.loops():
+            cands.append(h)
+        for _, t in h.calls():
+            c = h.callee(t)
+            if c in lib.fns and len(seen) < 12:
+                todo.append(c)
+    walkers = []
+    for h in cands:
+        for q in explore(h, max_visits=1, havoc=True):
+            if q.end != 'cut':
+                continue
+            for (k, bid, callee, args, t) in path_calls(q):
+                if isinstance(callee, str) and callee.endswith("Node::<'f>::transition") and len(args) == 2 and args[1][0] == 'bin' and args[1][1] == 'Sub' and args[1][3] == ('const', 1) and \
+                        any(is_c(x, "Node::<'f>::len") for x in walk(args[1][2])):
+                    cont_final = [d for d in q.decisions if d[2][0] == 'call' and d[2][1] == IS_FINAL]
+                    cont_len = [d for d in q.decisions if any(is_c(x, "Node::<'f>::len") or is_c(x, "Node::<'f>::is_empty") for x in walk(d[2]))]
+                    walkers.append((h, bool(cont_final), bool(cont_len)))
+    if not walkers:
+        return None
+    if any(cf for _, cf, _ in walkers):
+        return 'the bound is computed by a right-most walk that stops at the first FINAL node (%s); the last key ends at the node without transitions, so whenever the last key has a proper prefix that is also a key the bound is too small and stored values are reported absent' % walkers[0][0].path.rsplit('::', 1)[-1]
+    if not all(cl for _, _, cl in walkers):
+        return None
+    if op == 'Gt':
+        return 'ok'
+    if op == 'Ge':
+        return 'the shortcut rejects value >= (value of the last key): the last key itself can no longer be found'
+    return None
 
 
 def r16_2(ctx, g):
@@ -240,7 +363,31 @@ def r16_2(ctx, g):
         rv = p.ret()
         cs = [c for c in path_calls(p) if c[2] == gki.path]
         if len(cs) == 0:
-            ctx.undecided(R, 'delegation', 'get_key does not go through the public get_key_into any more (the pair was redesigned)', fn=gk)
+            if not any(gki.path == gk.callee(t) for _, t in gk.calls()):
+                ctx.undecided(R, 'delegation', 'get_key does not go through the public get_key_into any more (the pair was redesigned)', fn=gk)
+                continue
+            # an answer given without consulting the descent: only "there are no keys at all" justifies None
+            def _empty(d):
+                e, v = d[2], d[3]
+                if e[0] == 'call' and isinstance(e[1], str) and e[1].endswith('::is_empty') and v == 1:
+                    return True
+                if e[0] == 'bin' and e[1] in ('Eq', 'Ne') and ('const', 0) in e[2:] and any(x[0] == 'call' and isinstance(x[1], str) and x[1].endswith('::len') for x in e[2:]):
+                    return v == (1 if e[1] == 'Eq' else 0)
+                return False
+            if rv[0] == 'agg' and rv[1].endswith('Option::None') and any(_empty(d) for d in p.cdecisions()):
+                continue
+            if rv[0] == 'agg' and rv[1].endswith('Option::None'):
+                last = p.decisions[-1][2] if p.decisions else ('?',)
+                verdict = _rightmost_bound(lib, gk, gki, p)
+                if verdict == 'ok':
+                    ctx.check(R, True, 'early-none', '', fn=gk)
+                    continue
+                if verdict is None:
+                    ctx.undecided(R, 'early-none', 'get_key answers None without running the descent, on a test the rule cannot judge (%s)' % fmt(last)[:100], fn=gk)
+                    continue
+                ctx.violation(R, 'early-none', 'get_key answers None without running the descent (%s): %s' % (fmt(last)[:100], verdict), fn=gk)
+            else:
+                ctx.violation(R, 'early-some', 'get_key answers Some without running the descent', fn=gk)
             continue
         if len(cs) != 1:
             ctx.violation(R, 'delegation', 'get_key does not call get_key_into exactly once on a path', fn=gk)
